@@ -64,7 +64,8 @@ class Model:
             return self._sum[name]
         f = self.tb.fn("::parser::Parser::" + name)
         if f is None:
-            self.issue("T_loop", self.ev, "parser function %s not found" % name)
+            if name != "get_enclosed_elements_with_impl_mult":      # the bracket helper may be written out in the arms (see _fold_encl)
+                self.issue("T_loop", self.ev, "parser function %s not found" % name)
             self._sum[name] = None
             return None
         t = T.anf(self.tb.parser_term(f))
@@ -90,8 +91,25 @@ class Model:
         for pat, sm in tail[2]:
             for v in self.tb._pat_variants(pat):
                 if v not in out:
-                    out[v] = (pat, self._resolve_curcat(sm, v))
+                    out[v] = (pat, self._fold_encl(self._resolve_curcat(sm, v)))
         return out
+
+    @staticmethod
+    def _fold_encl(sm):
+        """consume the opener, parse at level L, require closer T, hand W(inner) to implicit_multiply -- written out in the
+        arm -- is what a call of the bracket helper does: same canonical summary"""
+        evs, tail = sm
+        if len(evs) == 3 and evs[0][0] == "next" and evs[1][0] == "ast" and evs[2][0] == "check" and all(e_[-1] == "tried" for e_ in evs) \
+                and tail[0] == "tailcall" and tail[1][0] == "impl":
+            w = tail[1][1]
+            lam = None
+            if w == ("R1",):
+                lam = ("lambda", (("bind", "b0"),), ("var", "b0"))
+            elif isinstance(w, tuple) and len(w) == 3 and w[0] == "ctor" and w[2] == ("R1",):
+                lam = ("lambda", (("bind", "b0"),), ("ctor", w[1], ("var", "b0")))
+            if lam is not None:
+                return ([], ("tailcall", ("encl", evs[1][1], evs[2][1], lam), tail[2] if len(tail) > 2 else False))
+        return sm
 
     def _resolve_curcat(self, sm, tokvar):
         """`curcat` (the category of the token that selected the arm, read before anything was consumed) -> that category"""
